@@ -934,3 +934,61 @@ fn selftest_oracles(args: &[String]) -> i32 {
         2
     }
 }
+
+
+/// `noirsim stats <Cxx> [--runs N]`: how much of the generated workload the sequential reference
+/// predicts exactly (no simulation: scenarios are only generated and interpreted)
+pub fn stats_main(args: &[String]) -> i32 {
+    use crate::refmodel::{Interp, RefSink};
+    let Some(prop) = args.first().cloned() else { return 2 };
+    let runs: u64 = arg_val(args, "--runs").and_then(|s| s.parse().ok()).unwrap_or(1000);
+    let seed = env_seed();
+    let (mut sinks, mut sinks_exact, mut loops, mut loops_pred, mut steps, mut steps_pred) = (0u64, 0u64, 0u64, 0u64, 0u64, 0u64);
+    let mut fam: std::collections::BTreeMap<String, u64> = Default::default();
+    let mut ops: std::collections::BTreeMap<String, u64> = Default::default();
+    fn walk(steps: &[crate::plan::Step], depth: usize, ops: &mut std::collections::BTreeMap<String, u64>) {
+        for st in steps {
+            let name = match st {
+                crate::plan::Step::Un(_, op) => format!("{:?}", op).split(|c| c == '(' || c == ' ' || c == '{').next().unwrap_or("").to_string(),
+                crate::plan::Step::Bin(_, _, op) => format!("{:?}", op).split(|c| c == '(' || c == ' ' || c == '{').next().unwrap_or("").to_string(),
+                crate::plan::Step::Loop(_, l) => {
+                    walk(&l.body, depth + 1, ops);
+                    if l.iterate { "iterate".to_string() } else { "replay".to_string() }
+                }
+                crate::plan::Step::Split(..) => "split".into(),
+                crate::plan::Step::Route(..) => "route".into(),
+                crate::plan::Step::Source(_) => "source".into(),
+                crate::plan::Step::Sink(_, k) => format!("sink:{:?}", k),
+            };
+            *ops.entry(if depth > 0 { format!("{}@loop", name) } else { name }).or_default() += 1;
+        }
+    }
+    for run in 0..runs {
+        let wbase = simrt::tape::mix(simrt::tape::mix(seed, crate::worker::prop_hash(&prop)), families::workload_run(&prop, run));
+        let mut wt = simrt::Tape::generate(simrt::tape::mix(wbase, 1));
+        let sc = families::generate(&prop, run, &mut wt);
+        *fam.entry(sc.family.clone()).or_default() += 1;
+        walk(&sc.steps, 0, &mut ops);
+        let r = Interp::run(&sc);
+        for (_, s) in &r.sinks {
+            sinks += 1;
+            if !matches!(s, RefSink::Weak { .. }) {
+                sinks_exact += 1;
+            }
+        }
+        loops += r.loop_states_by_path.len() as u64;
+        loops_pred += r.loop_states_by_path.keys().filter(|p| !r.unpredictable_loops.contains(*p)).count() as u64;
+        for v in r.expect.values() {
+            for e in v {
+                steps += 1;
+                if e.is_some() {
+                    steps_pred += 1;
+                }
+            }
+        }
+    }
+    println!("property={} runs={} families={:?}", prop, runs, fam);
+    println!("sinks predicted exactly: {}/{}  outermost loops with predicted states: {}/{}  (step, iteration) outputs predicted exactly: {}/{}", sinks_exact, sinks, loops_pred, loops, steps_pred, steps);
+    println!("operators drawn: {:?}", ops);
+    0
+}
